@@ -85,7 +85,7 @@ RULE = ('case = (record, dt, Signal|AccSignal, p2_plus, explicit n); each case r
         '2 npts+3 entries on a cold or warm object, then every entry point in random order, then a mutator and reads; (24) one '
         'or two refused operations (add_series longer / shorter, add_signal other dt / other length / not a signal, butter_pass '
         'with 3 corners / scalar / reversed / above Nyquist / (None, None) / record too short, reset_values ragged, remove_poly '
-        '-1, remove_average / running_average / add_constant with a string, add_constant of the wrong shape, AccSignal '
+        '-1, remove_average / running_average / add_constant with a string, add_constant of the wrong shape, gen_fa_spectrum with n = 0 / negative / float or a string p2_plus, AccSignal '
         'remove_rolling_average too high, set_zero_residual_* with an unsupported timezone) or a silently accepted non-finite '
         'update (reset_values / add_constant / add_series with NaN or inf), then every entry point, then a reset to a finite '
         'record and reads; (25) f(A); f(B); f(A) for six of the eleven entry points per case at p2_plus 1..3 and an explicit n, '
@@ -1655,6 +1655,8 @@ def _draw_protocol_history(rng, h, tier):
     copy_first = bool((h // (6 * len(states))) % 2) if rng.random() < 0.7 else bool(rng.integers(2))
     heavy = state in ('stockwell', 'all')
     npts = int(round(2.0 ** rng.uniform(2.0, 7.0 if heavy else 9.0)))
+    if clsname == 'AccSignal' and proto != 'copy' and rng.random() < 0.6:
+        npts = max(npts, 64)                              # long enough for the in-place baseline corrections
     x, rcls = _plain_record(rng, npts)
     dt = gen.dt(rng)
     p = {'values': x, 'form': None, 'dt': dt, 'cls': clsname, 'twin': None, 'family': 'copy-protocol'}
@@ -1678,18 +1680,20 @@ def _draw_protocol_history(rng, h, tier):
     c = 2 if p.get('cluster') is not None else 1          # index of the copy
     X, Y = (c, 0) if copy_first else (0, c)
     pool = ['reset_values/same', 'reset_values/shorter', 'reset_values/longer', 'add_constant']
+    inplace = []
     if proto != 'copy':
         pool = pool + ['add_series', 'remove_average', 'remove_poly', 'running_average', 'add_series/own-values']
-        if clsname == 'AccSignal' and npts >= 64:
-            pool = pool + ['rebase_displacement', 'remove_rolling_average/acceleration', 'set_zero_residual_velocity/None',
-                           'set_zero_residual_displacement']
+        if clsname == 'AccSignal' and npts >= 64:         # these write into the value buffer the object holds
+            inplace = ['rebase_displacement', 'remove_rolling_average/acceleration', 'set_zero_residual_velocity/None',
+                       'set_zero_residual_displacement', 'set_zero_residual_displacement_and_velocity/None']
     n_of = {X: npts, Y: npts}
 
     def act(o):
         """a mutator, an explicit regeneration, or another entry point on object o"""
         r = rng.random()
         if r < 0.65:
-            m = _draw_mutator(rng, pool[int(rng.integers(len(pool)))], n_of[o], dt)
+            src = inplace if inplace and rng.random() < 0.5 else pool
+            m = _draw_mutator(rng, src[int(rng.integers(len(src)))], n_of[o], dt)
             if m[0] == 'reset_values':
                 n_of[o] = len(m[1])
             return [[o, 'mut', m]]
@@ -1787,7 +1791,8 @@ def _draw_assign_history(rng, h, tier):
 RAISING = ['add_series/longer', 'add_series/shorter', 'add_series/list-longer', 'add_signal/other-dt', 'add_signal/other-length',
            'add_signal/not-a-signal', 'butter_pass/three', 'butter_pass/scalar', 'butter_pass/reversed', 'butter_pass/above-nyquist',
            'butter_pass/none-none', 'butter_pass/too-short', 'reset_values/ragged', 'remove_poly/negative', 'remove_average/str',
-           'running_average/str', 'add_constant/str', 'add_constant/wrong-shape',
+           'running_average/str', 'add_constant/str', 'add_constant/wrong-shape', 'gen_fa_spectrum/n-zero',
+           'gen_fa_spectrum/n-negative', 'gen_fa_spectrum/n-float', 'gen_fa_spectrum/p2-str',
            'nonfinite/reset-nan', 'nonfinite/reset-inf', 'nonfinite/add_constant-nan', 'nonfinite/add_series-inf', 'nonfinite/add_constant-inf']
 ACC_RAISING = ['remove_rolling_average/too-high', 'set_zero_residual_displacement/timezone', 'set_zero_residual_velocity/scalar',
                'set_zero_residual_displacement_and_velocity/scalar']
@@ -1830,6 +1835,10 @@ def _draw_refused(rng, kind, npts, dt):
         return ['call', 'running_average', ['wide']]
     if name == 'add_constant':
         return ['call', 'add_constant', ['1.0']] if var == 'str' else ['call', 'add_constant', [np.ones(npts + 2)]]
+    if name == 'gen_fa_spectrum':                     # the spectrum generation itself refuses its options
+        kw = {'n-zero': {'n': 0}, 'n-negative': {'n': -int(rng.integers(1, npts + 1))}, 'n-float': {'n': npts + 0.5},
+              'p2-str': {'p2_plus': '1'}}[var]
+        return ['call', 'gen_fa_spectrum', [], kw]
     if name == 'remove_rolling_average':
         return ['call', 'remove_rolling_average', [], {'mtype': ['velocity', 'acceleration'][int(rng.integers(2))], 'freq_window': 10.0 / dt}]
     if name == 'set_zero_residual_displacement':
@@ -2237,6 +2246,7 @@ def replay(w):
         rel_history(ctx, eqsig, w)
     elif fn == 'rel.aba':
         rel_aba(ctx, eqsig, w)
+        rel_aba(ctx, eqsig, w)      # again: process-wide state left by the first pass (grown buffers, memos) is then in place
     elif fn == 'fas2values':
         eqsig.fas2values(w['fas'], w['dt'])
     elif fn == 'fas2signal':
